@@ -1,1 +1,287 @@
-import GeoModel
+/-
+  Property C10: a collection (MultiPoint, MultiLineString, MultiPolygon, GeometryCollection,
+  FeatureCollection) answers every question as the composition of its children's answers,
+  and the child index (`indexed`) is only an accelerator.
+
+  All statements are about GeoModel.Object as written; the leaf predicates are left opaque.
+-/
+import GeoProofs.ObjLemmas
+
+namespace Geo
+open Obj
+
+variable {k : CollKind} {cs : List Obj} {ex : Option Extra} {idx : Bool}
+
+/-! ### derived attributes -/
+
+theorem coll_empty_iff : (Obj.coll k cs ex idx).empty = cs.all (fun c => c.empty) := by
+  simp [Obj.empty, allEmpty_eq]
+
+theorem coll_numPoints_sum : (Obj.coll k cs ex idx).numPoints = (cs.map Obj.numPoints).sum := by
+  simp [Obj.numPoints, sumPoints_eq]
+
+/-- The rectangle is the left fold of `unionBox` over the rectangles of the non-empty
+    children (`zeroBox` if there is none); in particular with exactly one non-empty child it
+    is that child's rectangle.  (`foldRects [] = zeroBox`, `foldRects (r :: rs) = rs.foldl unionBox r`.) -/
+theorem coll_rect_union :
+    (Obj.coll k cs ex idx).rect
+        = foldRects ((cs.filter (fun c => !c.empty)).map Obj.rect) ∧
+    (cs.filter (fun c => !c.empty) = [] → (Obj.coll k cs ex idx).rect = zeroBox) ∧
+    (∀ c, cs.filter (fun c => !c.empty) = [c] → (Obj.coll k cs ex idx).rect = c.rect) ∧
+    (∀ c rest, cs.filter (fun c => !c.empty) = c :: rest →
+        (Obj.coll k cs ex idx).rect = (rest.map Obj.rect).foldl unionBox c.rect) := by
+  have h : (Obj.coll k cs ex idx).rect = foldRects ((cs.filter (fun c => !c.empty)).map Obj.rect) := by
+    rw [Obj.rect, collRect_getD, nonEmptyKids]
+  refine ⟨h, ?_, ?_, ?_⟩
+  · intro h0; rw [h, h0]; rfl
+  · intro c h1; rw [h, h1]; rfl
+  · intro c rest h1; rw [h, h1]; rfl
+
+/-- `ForEach` visits the children's leaves in document order -/
+theorem coll_leaves : (Obj.coll k cs ex idx).leaves = (cs.map Obj.leaves).flatten := by
+  rw [Obj.leaves, leavesL_eq]
+
+/-! ### Search -/
+
+theorem searchChildren_spec (cs : List Obj) (q : Box) :
+    searchChildren cs q = cs.filter (fun c => !c.empty && c.rect.intersects q) := rfl
+
+/-- exactly the non-empty children whose rectangle meets the query -/
+theorem mem_searchChildren (cs : List Obj) (q : Box) (c : Obj) :
+    c ∈ searchChildren cs q ↔ c ∈ cs ∧ c.empty = false ∧ c.rect.intersects q = true := by
+  simp [searchChildren]
+
+/-- in child order, each child at most once (and, with `searchChildren_length`, exactly once) -/
+theorem searchChildren_sublist (cs : List Obj) (q : Box) : (searchChildren cs q).Sublist cs :=
+  List.filter_sublist
+
+theorem searchChildren_length (cs : List Obj) (q : Box) :
+    (searchChildren cs q).length = cs.countP (fun c => !c.empty && c.rect.intersects q) := by
+  rw [searchChildren, List.countP_eq_length_filter]
+
+theorem searchChildren_nodup (cs : List Obj) (q : Box) (h : cs.Nodup) : (searchChildren cs q).Nodup :=
+  h.sublist (searchChildren_sublist cs q)
+
+/-! ### binary predicates with the collection as receiver -/
+
+theorem coll_intersects_iff (x : Obj) : (Obj.coll k cs ex idx).intersects x = true ↔
+    ∃ c ∈ cs, c.empty = false ∧ ∃ g ∈ x.leaves, g.empty = false ∧
+      c.rect.intersects g.rect = true ∧ c.intersects g = true := by
+  rw [Obj.intersects, intersectsParts_iff]
+  simp only [intersectsSome_iff, List.mem_filter, Bool.not_eq_true']
+  constructor
+  · rintro ⟨g, ⟨hg, hge⟩, c, hc, hce, hr, hi⟩
+    exact ⟨c, hc, hce, g, hg, hge, hr, hi⟩
+  · rintro ⟨c, hc, hce, g, hg, hge, hr, hi⟩
+    exact ⟨g, ⟨hg, hge⟩, c, hc, hce, hr, hi⟩
+
+theorem coll_contains_iff (x : Obj) : (Obj.coll k cs ex idx).contains x = true ↔
+    (Obj.coll k cs ex idx).empty = false ∧ (∃ g ∈ x.leaves, g.empty = false) ∧
+    ∀ g ∈ x.leaves, g.empty = false →
+      ∃ c ∈ cs, c.empty = false ∧ c.rect.intersects g.rect = true ∧ c.contains g = true := by
+  rw [Obj.contains]
+  by_cases he : (Obj.coll k cs ex idx).empty = true
+  · simp [he]
+  · simp only [he, Bool.false_eq_true, if_false, Bool.and_eq_true, Bool.not_eq_true',
+      List.isEmpty_eq_false_iff_exists_mem, containsAll_iff, containsSome_iff, List.mem_filter]
+    simp only [Bool.not_eq_true] at he
+    simp only [true_and]
+    constructor
+    · rintro ⟨⟨g, hg, hge⟩, h⟩
+      exact ⟨⟨g, hg, hge⟩, fun g hg hge => h g ⟨hg, hge⟩⟩
+    · rintro ⟨⟨g, hg, hge⟩, h⟩
+      exact ⟨⟨g, hg, hge⟩, fun g hg => h g hg.1 hg.2⟩
+
+/-! ### the eight Spatial methods -/
+
+theorem coll_withinRect_iff (r : Box) : (Obj.coll k cs ex idx).withinRect r = true ↔
+    (Obj.coll k cs ex idx).empty = false ∧
+    ∀ c ∈ cs, c.empty = false ∧ c.rect.intersects r = true ∧ c.withinRect r = true := by
+  rw [Obj.withinRect, withinRectL_eq]
+  by_cases he : (Obj.coll k cs ex idx).empty = true
+  · simp [he]
+  · simp only [he, Bool.false_eq_true, if_false, within_count_iff]
+    simp only [Bool.not_eq_true] at he
+    simp
+
+theorem coll_withinPoint_iff (q : Pt) : (Obj.coll k cs ex idx).withinPoint q = true ↔
+    (Obj.coll k cs ex idx).empty = false ∧
+    ∀ c ∈ cs, c.empty = false ∧ c.rect.intersects q.box = true ∧ c.withinPoint q = true := by
+  rw [Obj.withinPoint, withinPointL_eq]
+  by_cases he : (Obj.coll k cs ex idx).empty = true
+  · simp [he]
+  · simp only [he, Bool.false_eq_true, if_false, within_count_iff]
+    simp only [Bool.not_eq_true] at he
+    simp
+
+theorem coll_withinLine_iff (l : Line) : (Obj.coll k cs ex idx).withinLine l = true ↔
+    (Obj.coll k cs ex idx).empty = false ∧
+    ∀ c ∈ cs, c.empty = false ∧ c.rect.intersects l.rect = true ∧ c.withinLine l = true := by
+  rw [Obj.withinLine, withinLineL_eq]
+  by_cases he : (Obj.coll k cs ex idx).empty = true
+  · simp [he]
+  · simp only [he, Bool.false_eq_true, if_false, within_count_iff]
+    simp only [Bool.not_eq_true] at he
+    simp
+
+theorem coll_withinPoly_iff (p : Poly) : (Obj.coll k cs ex idx).withinPoly p = true ↔
+    (Obj.coll k cs ex idx).empty = false ∧
+    ∀ c ∈ cs, c.empty = false ∧ c.rect.intersects p.rect = true ∧ c.withinPoly p = true := by
+  rw [Obj.withinPoly, withinPolyL_eq]
+  by_cases he : (Obj.coll k cs ex idx).empty = true
+  · simp [he]
+  · simp only [he, Bool.false_eq_true, if_false, within_count_iff]
+    simp only [Bool.not_eq_true] at he
+    simp
+
+theorem coll_intersectsRect_iff (r : Box) : (Obj.coll k cs ex idx).intersectsRect r = true ↔
+    ∃ c ∈ cs, c.empty = false ∧ c.rect.intersects r = true ∧ c.intersectsRect r = true := by
+  rw [Obj.intersectsRect, intersectsRectL_iff]
+
+theorem coll_intersectsPoint_iff (q : Pt) : (Obj.coll k cs ex idx).intersectsPoint q = true ↔
+    ∃ c ∈ cs, c.empty = false ∧ c.rect.intersects q.box = true ∧ c.intersectsPoint q = true := by
+  rw [Obj.intersectsPoint, intersectsPointL_iff]
+
+theorem coll_intersectsLine_iff (l : Line) : (Obj.coll k cs ex idx).intersectsLine l = true ↔
+    ∃ c ∈ cs, c.empty = false ∧ c.rect.intersects l.rect = true ∧ c.intersectsLine l = true := by
+  rw [Obj.intersectsLine, intersectsLineL_iff]
+
+theorem coll_intersectsPoly_iff (p : Poly) : (Obj.coll k cs ex idx).intersectsPoly p = true ↔
+    ∃ c ∈ cs, c.empty = false ∧ c.rect.intersects p.rect = true ∧ c.intersectsPoly p = true := by
+  rw [Obj.intersectsPoly, intersectsPolyL_iff]
+
+/-! ### the child index is only an accelerator -/
+
+/-- as a receiver and for the derived attributes -/
+theorem indexed_irrelevant_receiver (idx idx' : Bool) (x : Obj) :
+    (Obj.coll k cs ex idx).empty = (Obj.coll k cs ex idx').empty ∧
+    (Obj.coll k cs ex idx).rect = (Obj.coll k cs ex idx').rect ∧
+    (Obj.coll k cs ex idx).center = (Obj.coll k cs ex idx').center ∧
+    (Obj.coll k cs ex idx).valid = (Obj.coll k cs ex idx').valid ∧
+    (Obj.coll k cs ex idx).numPoints = (Obj.coll k cs ex idx').numPoints ∧
+    (Obj.coll k cs ex idx).leaves = (Obj.coll k cs ex idx').leaves ∧
+    (Obj.coll k cs ex idx).contains x = (Obj.coll k cs ex idx').contains x ∧
+    (Obj.coll k cs ex idx).intersects x = (Obj.coll k cs ex idx').intersects x ∧
+    (∀ r, (Obj.coll k cs ex idx).withinRect r = (Obj.coll k cs ex idx').withinRect r) ∧
+    (∀ q, (Obj.coll k cs ex idx).withinPoint q = (Obj.coll k cs ex idx').withinPoint q) ∧
+    (∀ l, (Obj.coll k cs ex idx).withinLine l = (Obj.coll k cs ex idx').withinLine l) ∧
+    (∀ p, (Obj.coll k cs ex idx).withinPoly p = (Obj.coll k cs ex idx').withinPoly p) ∧
+    (∀ r, (Obj.coll k cs ex idx).intersectsRect r = (Obj.coll k cs ex idx').intersectsRect r) ∧
+    (∀ q, (Obj.coll k cs ex idx).intersectsPoint q = (Obj.coll k cs ex idx').intersectsPoint q) ∧
+    (∀ l, (Obj.coll k cs ex idx).intersectsLine l = (Obj.coll k cs ex idx').intersectsLine l) ∧
+    (∀ p, (Obj.coll k cs ex idx).intersectsPoly p = (Obj.coll k cs ex idx').intersectsPoly p) := by
+  have he : (Obj.coll k cs ex idx).empty = (Obj.coll k cs ex idx').empty := by simp [Obj.empty]
+  have hr : (Obj.coll k cs ex idx).rect = (Obj.coll k cs ex idx').rect := by simp [Obj.rect]
+  refine ⟨he, hr, ?_, ?_, ?_, ?_, ?_, ?_, ?_, ?_, ?_, ?_, ?_, ?_, ?_, ?_⟩
+  · simp [Obj.center, hr]
+  · cases k <;> simp [Obj.valid, hr]
+  · simp [Obj.numPoints]
+  · simp [Obj.leaves]
+  · rw [Obj.contains, Obj.contains, he]
+  · rw [Obj.intersects, Obj.intersects]
+  · intro r; rw [Obj.withinRect, Obj.withinRect, he]
+  · intro q; rw [Obj.withinPoint, Obj.withinPoint, he]
+  · intro l; rw [Obj.withinLine, Obj.withinLine, he]
+  · intro p; rw [Obj.withinPoly, Obj.withinPoly, he]
+  · intro r; rw [Obj.intersectsRect, Obj.intersectsRect]
+  · intro q; rw [Obj.intersectsPoint, Obj.intersectsPoint]
+  · intro l; rw [Obj.intersectsLine, Obj.intersectsLine]
+  · intro p; rw [Obj.intersectsPoly, Obj.intersectsPoly]
+
+/-- as an argument (`x.contains c`, i.e. `c.within x`, and `x.intersects c`), for every `x` -/
+theorem indexed_irrelevant_argument (idx idx' : Bool) : ∀ x : Obj,
+    x.contains (Obj.coll k cs ex idx) = x.contains (Obj.coll k cs ex idx') ∧
+    x.intersects (Obj.coll k cs ex idx) = x.intersects (Obj.coll k cs ex idx') := by
+  have R := fun x => @indexed_irrelevant_receiver k cs ex idx idx' x
+  have hl : (Obj.coll k cs ex idx).leaves = (Obj.coll k cs ex idx').leaves := (R default).2.2.2.2.2.1
+  intro x
+  induction x using Obj.ind with
+  | hpoint pos e =>
+    exact ⟨by rw [Obj.contains, Obj.contains]; exact (R default).2.2.2.2.2.2.2.2.2.1 _,
+      by rw [Obj.intersects, Obj.intersects]; exact (R default).2.2.2.2.2.2.2.2.2.2.2.2.2.1 _⟩
+  | hspoint pos =>
+    exact ⟨by rw [Obj.contains, Obj.contains]; exact (R default).2.2.2.2.2.2.2.2.2.1 _,
+      by rw [Obj.intersects, Obj.intersects]; exact (R default).2.2.2.2.2.2.2.2.2.2.2.2.2.1 _⟩
+  | hline l poss e =>
+    exact ⟨by rw [Obj.contains, Obj.contains]; exact (R default).2.2.2.2.2.2.2.2.2.2.1 _,
+      by rw [Obj.intersects, Obj.intersects]; exact (R default).2.2.2.2.2.2.2.2.2.2.2.2.2.2.1 _⟩
+  | hpoly p rings e =>
+    exact ⟨by rw [Obj.contains, Obj.contains]; exact (R default).2.2.2.2.2.2.2.2.2.2.2.1 _,
+      by rw [Obj.intersects, Obj.intersects]; exact (R default).2.2.2.2.2.2.2.2.2.2.2.2.2.2.2 _⟩
+  | hrect b lo hi =>
+    exact ⟨by rw [Obj.contains, Obj.contains]; exact (R default).2.2.2.2.2.2.2.2.1 _,
+      by rw [Obj.intersects, Obj.intersects]; exact (R default).2.2.2.2.2.2.2.2.2.2.2.2.1 _⟩
+  | hcircle c r => exact ⟨by rw [Obj.contains, Obj.contains], by rw [Obj.intersects, Obj.intersects]⟩
+  | hfeat b e ih => exact ⟨by rw [Obj.contains, Obj.contains]; exact ih.1,
+      by rw [Obj.intersects, Obj.intersects]; exact ih.2⟩
+  | hcoll k' ds e i ih =>
+    exact ⟨by rw [Obj.contains, Obj.contains, hl], by rw [Obj.intersects, Obj.intersects, hl]⟩
+
+/-- every observable of a collection is independent of the `indexed` flag -/
+theorem indexed_irrelevant (idx idx' : Bool) (x : Obj) :
+    (Obj.coll k cs ex idx).empty = (Obj.coll k cs ex idx').empty ∧
+    (Obj.coll k cs ex idx).rect = (Obj.coll k cs ex idx').rect ∧
+    (Obj.coll k cs ex idx).center = (Obj.coll k cs ex idx').center ∧
+    (Obj.coll k cs ex idx).valid = (Obj.coll k cs ex idx').valid ∧
+    (Obj.coll k cs ex idx).numPoints = (Obj.coll k cs ex idx').numPoints ∧
+    (Obj.coll k cs ex idx).leaves = (Obj.coll k cs ex idx').leaves ∧
+    (Obj.coll k cs ex idx).contains x = (Obj.coll k cs ex idx').contains x ∧
+    (Obj.coll k cs ex idx).intersects x = (Obj.coll k cs ex idx').intersects x ∧
+    (Obj.coll k cs ex idx).within x = (Obj.coll k cs ex idx').within x ∧
+    x.contains (Obj.coll k cs ex idx) = x.contains (Obj.coll k cs ex idx') ∧
+    x.intersects (Obj.coll k cs ex idx) = x.intersects (Obj.coll k cs ex idx') ∧
+    x.within (Obj.coll k cs ex idx) = x.within (Obj.coll k cs ex idx') ∧
+    (∀ r, (Obj.coll k cs ex idx).withinRect r = (Obj.coll k cs ex idx').withinRect r) ∧
+    (∀ q, (Obj.coll k cs ex idx).withinPoint q = (Obj.coll k cs ex idx').withinPoint q) ∧
+    (∀ l, (Obj.coll k cs ex idx).withinLine l = (Obj.coll k cs ex idx').withinLine l) ∧
+    (∀ p, (Obj.coll k cs ex idx).withinPoly p = (Obj.coll k cs ex idx').withinPoly p) ∧
+    (∀ r, (Obj.coll k cs ex idx).intersectsRect r = (Obj.coll k cs ex idx').intersectsRect r) ∧
+    (∀ q, (Obj.coll k cs ex idx).intersectsPoint q = (Obj.coll k cs ex idx').intersectsPoint q) ∧
+    (∀ l, (Obj.coll k cs ex idx).intersectsLine l = (Obj.coll k cs ex idx').intersectsLine l) ∧
+    (∀ p, (Obj.coll k cs ex idx).intersectsPoly p = (Obj.coll k cs ex idx').intersectsPoly p) := by
+  obtain ⟨h1, h2, h3, h4, h5, h6, h7, h8, h9⟩ := @indexed_irrelevant_receiver k cs ex idx idx' x
+  obtain ⟨a1, a2⟩ := @indexed_irrelevant_argument k cs ex idx idx' x
+  exact ⟨h1, h2, h3, h4, h5, h6, h7, h8, a1, a1, a2, h7, h9⟩
+
+/-! ### non-vacuity: a two-child collection -/
+
+section examples
+private def P1 : Obj := .spoint ⟨⟨1, 1⟩, true, "1", "1"⟩
+private def P2 : Obj := .point ⟨⟨2, 3⟩, true, "2", "3"⟩ none
+private def R1 : Obj := .rectO ⟨⟨0, 0⟩, ⟨5, 5⟩⟩ ⟨⟨0, 0⟩, true, "0", "0"⟩ ⟨⟨5, 5⟩, true, "5", "5"⟩
+private def MP : Obj := .coll .multiPoint [P1, P2] none false
+private def GC : Obj := .coll .geometryCollection [R1, MP] none true
+
+example : MP.rect = ⟨⟨1, 1⟩, ⟨2, 3⟩⟩ := by decide
+example : MP.withinRect ⟨⟨0, 0⟩, ⟨5, 5⟩⟩ = true := by decide
+example : R1.contains MP = true := by simp only [R1, MP, P1, P2]; obj_eval
+example : GC.contains MP = true := by simp only [GC, R1, MP, P1, P2]; obj_eval
+example : MP.intersects GC = true := by simp only [GC, R1, MP, P1, P2]; obj_eval
+example : GC.leaves = [R1, P1, P2] := rfl
+example : searchChildren [P1, P2] ⟨⟨0, 0⟩, ⟨1, 1⟩⟩ = [P1] := by simp only [P1, P2]; obj_eval
+end examples
+
+end Geo
+
+#print axioms Geo.coll_empty_iff
+#print axioms Geo.coll_numPoints_sum
+#print axioms Geo.coll_rect_union
+#print axioms Geo.coll_leaves
+#print axioms Geo.searchChildren_spec
+#print axioms Geo.mem_searchChildren
+#print axioms Geo.searchChildren_sublist
+#print axioms Geo.searchChildren_length
+#print axioms Geo.searchChildren_nodup
+#print axioms Geo.coll_intersects_iff
+#print axioms Geo.coll_contains_iff
+#print axioms Geo.coll_withinRect_iff
+#print axioms Geo.coll_withinPoint_iff
+#print axioms Geo.coll_withinLine_iff
+#print axioms Geo.coll_withinPoly_iff
+#print axioms Geo.coll_intersectsRect_iff
+#print axioms Geo.coll_intersectsPoint_iff
+#print axioms Geo.coll_intersectsLine_iff
+#print axioms Geo.coll_intersectsPoly_iff
+#print axioms Geo.indexed_irrelevant_receiver
+#print axioms Geo.indexed_irrelevant_argument
+#print axioms Geo.indexed_irrelevant
